@@ -594,6 +594,8 @@ def main():
                        "DensityMatrixEvolution, StateVectorEvolution, relaxation tensors in operator form are covered by the per-class action laws, "
                        "not by the program runner"]
     chk.prove()
+    import translate
+    translate.static_tie(cm, chk, PID, cm.REPO)      # second, static tie: the loop nests of the tensor basis change regenerated from the source
     if args.replay:
         rep = json.load(open(args.replay))
         cases = [rep["input"]] if isinstance(rep.get("input"), dict) and "prog" in rep["input"] else []
